@@ -60,6 +60,11 @@ func new(regexStr string, flags []Flag) (Regex, error) {
 
 // Match a byte string.
 func (r Regex) Match(bytes []byte) bool {
+	// A line is matched without its line terminator (like grep does), otherwise
+	// patterns anchored with '$' can never match a line read from a file.
+	if n := len(bytes); n > 0 && bytes[n-1] == '\n' {
+		bytes = bytes[:n-1]
+	}
 	switch r.flags[0] {
 	case Default:
 		return r.re.Match(bytes)
